@@ -28,7 +28,6 @@ var c01Audited = []auditEntry{
 	{"fill", "d.bytes.buf[*d.bytes.i:", "i == j == 0 was just stored; end = min(len(buf), limit-n) >= 1 behind the n == limit guard (n <= limit by the cap and the counting rule, C10)"},
 	{"parseFitFieldArray", "d.tmp[(phi[j", "string-array scanner: ranking function j+k; both updates increase it and every index is taken after the test j+k < dsize <= 255 < len(tmp)"},
 	{"parseFitFieldArray", "d.tmp[phi[j", "string-array scanner slices d.tmp[j:j+k] / d.tmp[j:dsize] with j+k < dsize on that path"},
-	{"expandComponents", "*x.CompressedSpeedDistance[", "constant indices 0..2 are evaluated only under expand, which is set only when len(...) == 3"},
 }
 
 var c01AuditedPanics = map[string]string{
@@ -60,6 +59,7 @@ func runC01(c *Ctx, r *Report) {
 
 	c01Matrix(c, r)
 	c01Census(c, r, scope, ri)
+	c01MapNonNil(c, r, scope, roots)
 	c01Loops(c, r, scope)
 	// R4
 	if fn := c.ssaFn(c.fn(c.fit, "decoder.fill")); fn != nil {
@@ -403,6 +403,12 @@ func c01Site(c *Ctx, bc *boundsCtx, fn *ssa.Function, b *ssa.BasicBlock, ins ssa
 		}
 		if fn.Name() == "getMesgAllInvalid" || fn.Name() == "getField" {
 			// handled by arrays above; slices not expected
+		}
+		if k, ok := idx.(*ssa.Const); ok && k.Value != nil && k.Int64() >= 0 {
+			if why, ok := lenGuarded(fn, b, x, k.Int64()); ok {
+				return desc, why, true, true
+			}
+			return desc, fmt.Sprintf("constant index %d of a slice is not dominated by a test that its length exceeds %d (directly or through a flag that is set only under such a test)", k.Int64(), k.Int64()), false, true
 		}
 		if why, ok := audited(desc); ok {
 			return desc, why, true, true
@@ -935,4 +941,263 @@ func c01NoRecursion(c *Ctx, r *Report, scope []*ssa.Function) {
 		}
 	}
 	r.check(len(cyc) == 0, "C01-R3-no-recursion", "decode-call-graph", "", "no recursion among the reachable library functions", "recursion on the decode path (stack growth controlled by input): "+strings.Join(cyc, ", "))
+}
+
+// lenGuarded: the block is dominated by the true edge of a test len(S) == n / >= n / > n-1 with
+// n > k on the same slice S (a load of the same field path, the field not stored to in the
+// function), or by the true edge of a boolean flag (phi) every non-false input of which comes
+// from a block dominated by such a test.
+func lenGuarded(fn *ssa.Function, b *ssa.BasicBlock, slice ssa.Value, k int64) (string, bool) {
+	sp := stripAddrs(pathOf(slice))
+	if !strings.HasPrefix(sp, "*") {
+		return "", false
+	}
+	for _, blk := range fn.Blocks {
+		for _, ins := range blk.Instrs {
+			if st, ok := ins.(*ssa.Store); ok && "*"+stripAddrs(pathOf(st.Addr)) == sp {
+				return "", false // the slice is reassigned in this function
+			}
+		}
+	}
+	lenTest := func(v ssa.Value) bool {
+		bo, ok := v.(*ssa.BinOp)
+		if !ok {
+			return false
+		}
+		call, ok := bo.X.(*ssa.Call)
+		if !ok {
+			return false
+		}
+		bi, ok := call.Common().Value.(*ssa.Builtin)
+		if !ok || bi.Name() != "len" || stripAddrs(pathOf(call.Common().Args[0])) != sp {
+			return false
+		}
+		n, ok := bo.Y.(*ssa.Const)
+		if !ok || n.Value == nil {
+			return false
+		}
+		switch bo.Op {
+		case token.EQL, token.GEQ:
+			return n.Int64() > k
+		case token.GTR:
+			return n.Int64() >= k
+		}
+		return false
+	}
+	if domByBoolEdge(fn, b, true, lenTest) {
+		return fmt.Sprintf("dominated by a length test of the same slice that implies len > %d", k), true
+	}
+	flag := func(v ssa.Value) bool {
+		phi, ok := v.(*ssa.Phi)
+		if !ok {
+			return false
+		}
+		for i, e := range phi.Edges {
+			if kc, ok := e.(*ssa.Const); ok && kc.Value != nil && kc.Value.ExactString() == "false" {
+				continue
+			}
+			if !domByBoolEdge(fn, phi.Block().Preds[i], true, lenTest) {
+				return false
+			}
+		}
+		return true
+	}
+	if domByBoolEdge(fn, b, true, flag) {
+		return fmt.Sprintf("dominated by a flag that is true only under a length test of the same slice that implies len > %d", k), true
+	}
+	return "", false
+}
+
+// c01MapNonNil: `m[k] = v` panics on a nil map. Every map update in scope is either on a map made
+// in the same function, or on a struct field F for which (a) every store to F in the module
+// stores a fresh make(map), all in one function S; (b) the update and the store are guarded by
+// the same option flags (the store by no more than the update); (c) the updating function is
+// reached from the entry points only through S; and (d) in S, assuming those flags true, no call
+// that can reach the updating function is reachable from S's entry without passing the store.
+func c01MapNonNil(c *Ctx, r *Report, scope []*ssa.Function, roots []*ssa.Function) {
+	inScope := map[*ssa.Function]bool{}
+	for _, f := range scope {
+		inScope[f] = true
+	}
+	cg := c.callGraph()
+	reaches := func(from *ssa.Function, to *ssa.Function, without *ssa.Function) bool {
+		seen := map[*ssa.Function]bool{}
+		q := []*ssa.Function{from}
+		for len(q) > 0 {
+			f := q[0]
+			q = q[1:]
+			if seen[f] || f == without {
+				continue
+			}
+			seen[f] = true
+			if f == to {
+				return true
+			}
+			if n := cg.Nodes[f]; n != nil {
+				for _, e := range n.Out {
+					q = append(q, e.Callee.Func)
+				}
+			}
+			q = append(q, f.AnonFuncs...)
+		}
+		return false
+	}
+	// flags: field chains on the receiver whose true edge dominates b, e.g. ".opts.unknownFields"
+	flagsAt := func(fn *ssa.Function, b *ssa.BasicBlock) map[string]bool {
+		out := map[string]bool{}
+		if len(fn.Params) == 0 {
+			return out
+		}
+		recv := fn.Params[0].Name()
+		for _, a := range fn.Blocks {
+			if len(a.Instrs) == 0 {
+				continue
+			}
+			ifi, ok := a.Instrs[len(a.Instrs)-1].(*ssa.If)
+			if !ok {
+				continue
+			}
+			p := stripAddrs(pathOf(ifi.Cond))
+			if !strings.HasPrefix(p, "*"+recv+".") {
+				continue
+			}
+			if len(a.Succs[0].Preds) == 1 && a.Succs[0].Dominates(b) {
+				out[p[1+len(recv):]] = true
+			}
+		}
+		return out
+	}
+	n := 0
+	for _, fn := range scope {
+		for _, b := range fn.Blocks {
+			for _, ins := range b.Instrs {
+				mu, ok := ins.(*ssa.MapUpdate)
+				if !ok {
+					continue
+				}
+				n++
+				key := fmt.Sprintf("%s/%s", fn.Name(), stripAddrs(pathOf(mu.Map)))
+				pos := c.pos(mu.Pos())
+				if _, isMake := mu.Map.(*ssa.MakeMap); isMake {
+					r.ok("C01-R2-map-nonnil", key, pos, "map made in the same function")
+					continue
+				}
+				ld, ok := mu.Map.(*ssa.UnOp)
+				var fa *ssa.FieldAddr
+				if ok && ld.Op == token.MUL {
+					fa, _ = ld.X.(*ssa.FieldAddr)
+				}
+				if fa == nil {
+					r.fail("C01-R2-map-nonnil", key, pos, "update of a map that is neither made here nor a struct field with a recognised initialisation: assignment to an entry of a nil map panics")
+					continue
+				}
+				st := fa.X.Type().Underlying().(*types.Pointer).Elem().Underlying().(*types.Struct)
+				fname := st.Field(fa.Field).Name()
+				owner := fa.X.Type().Underlying().(*types.Pointer).Elem()
+				// (a) stores
+				var stores []*ssa.Store
+				bad := ""
+				for _, g := range c.moduleFuncs() {
+					for _, gb := range g.Blocks {
+						for _, gi := range gb.Instrs {
+							s2, ok := gi.(*ssa.Store)
+							if !ok {
+								continue
+							}
+							fa2, ok := s2.Addr.(*ssa.FieldAddr)
+							if !ok || fa2.Field != fa.Field || !types.Identical(fa2.X.Type().Underlying().(*types.Pointer).Elem(), owner) {
+								continue
+							}
+							if _, isMake := s2.Val.(*ssa.MakeMap); !isMake {
+								bad = "a store to " + fname + " at " + c.pos(s2.Pos()) + " is not a fresh make(map)"
+							}
+							stores = append(stores, s2)
+						}
+					}
+				}
+				if bad != "" || len(stores) != 1 {
+					r.fail("C01-R2-map-nonnil", key, pos, fmt.Sprintf("map field %s must be initialised by exactly one make(map) store (found %d) %s", fname, len(stores), bad))
+					continue
+				}
+				S := stores[0].Parent()
+				// (b) flags
+				fu, fs := flagsAt(fn, b), flagsAt(S, stores[0].Block())
+				okFlags := true
+				for f := range fs {
+					if !fu[f] {
+						okFlags = false
+					}
+				}
+				// (c) only through S
+				okThrough := true
+				for _, root := range roots {
+					if root != S && reaches(root, fn, S) {
+						okThrough = false
+					}
+				}
+				// (d) in S: calls reaching fn are behind the store when the flags hold
+				recv := ""
+				if len(S.Params) > 0 {
+					recv = S.Params[0].Name()
+				}
+				covered := map[*ssa.BasicBlock]bool{} // blocks entered only after the store
+				var early []string
+				seen := map[*ssa.BasicBlock]bool{}
+				var walk func(blk *ssa.BasicBlock)
+				walk = func(blk *ssa.BasicBlock) {
+					if seen[blk] {
+						return
+					}
+					seen[blk] = true
+					for _, gi := range blk.Instrs {
+						if gi == ssa.Instruction(stores[0]) {
+							covered[blk] = true
+							return // everything after is behind the store
+						}
+						if ci, ok := gi.(ssa.CallInstruction); ok {
+							if _, isDefer := gi.(*ssa.Defer); isDefer {
+								continue // runs at exit; a nil map is only read there (checked as its own site if it updates)
+							}
+							for _, e := range cg.Nodes[S].Out {
+								if e.Site == ci && reaches(e.Callee.Func, fn, nil) {
+									early = append(early, c.pos(ci.Pos()))
+								}
+							}
+						}
+					}
+					if ifi, ok := blk.Instrs[len(blk.Instrs)-1].(*ssa.If); ok {
+						p := stripAddrs(pathOf(ifi.Cond))
+						if strings.HasPrefix(p, "*"+recv+".") && fs[p[1+len(recv):]] {
+							walk(blk.Succs[0]) // flag assumed true
+							return
+						}
+					}
+					for _, s := range blk.Succs {
+						walk(s)
+					}
+				}
+				if S == fn {
+					okThrough = true
+				}
+				walk(S.Blocks[0])
+				okOrder := len(early) == 0
+				if S == fn {
+					okOrder = instrDominates(stores[0], mu)
+				}
+				r.check(okFlags && okThrough && okOrder, "C01-R2-map-nonnil", key, pos,
+					fmt.Sprintf("%s is made in %s under flags %v before any call that reaches this update (guarded by %v)", fname, S.Name(), keysOfStr(fs), keysOfStr(fu)),
+					fmt.Sprintf("map field %s can be nil at this update (assignment to entry in nil map panics): made in %s under flags %v, update guarded by %v; flags agree=%v, reached only through %s=%v, calls that reach the update before the make: %v", fname, S.Name(), keysOfStr(fs), keysOfStr(fu), okFlags, S.Name(), okThrough, early))
+			}
+		}
+	}
+	r.set("map_update_sites", n)
+}
+
+func keysOfStr(m map[string]bool) []string {
+	var ks []string
+	for k := range m {
+		ks = append(ks, k)
+	}
+	sort.Strings(ks)
+	return ks
 }
